@@ -117,6 +117,49 @@ def run(ctx):
         if variant == "SComplex" and ok and not delegated and pushes_seen == 0:
             ok, why = False, "no path renames a child of a complex term (neither a loop pushing renamed children nor the vector renamer)"
         ctx.ob("R4", "term(%s)" % variant, ok and n > 0, ctx.where(U), why or "rebuilt unchanged apart from renamed children")
+    # list arm: every node of the list contributes its renamed term: the loop that walks the nodes is left only on a
+    # test of the *shape* of what remains (the current node is no longer an SLinkedList / is Nil), never on a payload
+    # field such as `count` — stopping one node early hands make_linked_list a last element it may splice
+    from cfg import BodyCfg
+    ucfg = BodyCfg(U)
+    ps = w.paths({me: frozenset(["SLinkedList"])})
+    ctx.stats["paths_walked"] += len(ps)
+    okl, whyl, nl = True, "", 0
+    ren_blocks = {i for i, t in U.calls() if (t["callee"].get("resolved") or t["callee"].get("path") or "") == U.path}
+    list_loops = [(h, bl) for h, bl in ucfg.loops().items() if bl & ren_blocks]
+
+    def shape_test(c):
+        if c[0] == "variant":
+            return True
+        if c[0] == "call" and (c[1].endswith("::eq") or c[1].endswith("::ne")):
+            return any(isinstance(a, tuple) and a[0] == "agg" and a[2] == "Nil" for a in c[2])
+        if c[0] == "unop":
+            return shape_test(c[2])
+        return False
+    for p in ps:
+        if p.end != "return":
+            continue
+        r = strip(p.ret)
+        if not (r[0] == "call" and r[1].endswith("make_linked_list")):
+            continue
+        nl += 1
+        for h, bl in list_loops:
+            for e in p.events:
+                if e["k"] != "branch" or e.get("inl") or e["bb"] not in bl:
+                    continue
+                # where did the path go after this decision?
+                idxs = [k for k, x in enumerate(p.blocks) if x == e["bb"]]
+                left = any(k + 1 < len(p.blocks) and p.blocks[k + 1] not in bl for k in idxs)
+                if left and not shape_test(e["cond"]):
+                    okl, whyl = False, "the walk over the list's nodes is left on `%s` (line %d), not on the shape of the remaining list: a node can be skipped" % (
+                        show(e["cond"])[:60], e["line"])
+        for e in p.calls():
+            if e["callee"].endswith("::push"):
+                v = strip(e["args"][1])
+                if not (v[0] == "call" and v[1] == U.path and strip(v[2][1]) == mp):
+                    okl, whyl = False, "a list element %s is pushed that is not the renamed element (same map)" % show(v)[:60]
+    ctx.ob("R4", "term(SLinkedList)", okl and nl > 0 and bool(list_loops), ctx.where(U), whyl or
+           "every node's term is renamed under the same map; the walk ends only where the list ends (%d paths)" % nl)
     # goal / operator / built-in renamers keep the variant and the functor
     for path, kinds in (("goal::Goal::recreate_variables", ("OperatorGoal", "ComplexGoal", "BuiltInGoal")),
                         ("operator::Operator::recreate_variables", ("And", "Or", "Time", "Not"))):
